@@ -1,4 +1,5 @@
 import PhyloModel.Props.C03
+import PhyloModel.Props.C03Protocol
 #print axioms C03.add_child_preserves
 #print axioms C03.prune_preserves
 #print axioms C03.compress_node_preserves
@@ -10,3 +11,6 @@ import PhyloModel.Props.C03
 #print axioms C03.depth_counts_edges
 #print axioms C03.one_rooted_tree
 #print axioms C03.no_new_root
+#print axioms C03.add_child_of_a_copy_preserves
+#print axioms C03.length_overwrite_preserves
+#print axioms C03.every_extended_history
